@@ -449,7 +449,10 @@ _B64 = 'ABCDEFGHIJKLMNOPQRSTUVWXYZabcdefghijklmnopqrstuvwxyz0123456789+/'
 def _b64char(v):
     if isinstance(v, _rint):
         return ord(_B64[v])
-    return s_ite(v < 26, v + 65, s_ite(v < 52, v + 71, s_ite(v < 62, v - 4, s_ite(v == 62, 43, 47))))
+    r = s_ite(v < 26, v + 65, s_ite(v < 52, v + 71, s_ite(v < 62, v - 4, s_ite(v == 62, 43, 47))))
+    if isinstance(r, SymInt):
+        r.tag = ('b64', v)
+    return r
 
 
 def b64encode_v(b):
@@ -472,22 +475,17 @@ def b64encode_v(b):
 
 
 def _b64val(ch):
+    """-> (six-bit value, validity condition) without forking"""
     if isinstance(ch, _rint):
         i = _B64.find(chr(ch))
-        if i < 0:
-            raise _binascii.Error("bad base64 char")
-        return i
-    for lo, hi, off in ((65, 90, -65), (97, 122, -71), (48, 57, 4)):
-        c = s_and(ch >= lo, ch <= hi)
-        if (c if isinstance(c, bool) else cur().branch(c.e)):
-            return ch + off
-    c = ch == 43
-    if (c if isinstance(c, bool) else cur().branch(c.e)):
-        return 62
-    c = ch == 47
-    if (c if isinstance(c, bool) else cur().branch(c.e)):
-        return 63
-    raise _binascii.Error("bad base64 char")
+        return (max(i, 0), i >= 0)
+    if ch.tag is not None and ch.tag[0] == 'b64':
+        return (ch.tag[1], True)
+    up = s_and(ch >= 65, ch <= 90)
+    lo = s_and(ch >= 97, ch <= 122)
+    dg = s_and(ch >= 48, ch <= 57)
+    val = s_ite(up, ch - 65, s_ite(lo, ch - 71, s_ite(dg, ch + 4, s_ite(ch == 43, 62, 63))))
+    return (val, s_or(up, lo, dg, ch == 43, ch == 47))
 
 
 def b64decode_v(s):
@@ -500,6 +498,7 @@ def b64decode_v(s):
     if len(d) % 4:
         raise _binascii.Error("Incorrect padding")
     out = []
+    oks = []
     for k in range(0, len(d), 4):
         q = d[k:k + 4]
         pad = 0
@@ -507,11 +506,19 @@ def b64decode_v(s):
             pad = 1
             if isinstance(q[2], _rint) and q[2] == 61:
                 pad = 2
-        vals = [_b64val(ch) for ch in q[:4 - pad]] + [0] * pad
+        vals = []
+        for ch in q[:4 - pad]:
+            v, ok = _b64val(ch)
+            vals.append(v)
+            oks.append(ok)
+        vals = vals + [0] * pad
         b0 = (vals[0] << 2) | (vals[1] >> 4)
         b1 = ((vals[1] & 15) << 4) | (vals[2] >> 2)
         b2 = ((vals[2] & 3) << 6) | vals[3]
         out.extend([b0, b1, b2][:3 - pad])
+    allok = s_and(*oks) if oks else True
+    if not (allok if isinstance(allok, bool) else cur().branch(allok.e)):
+        raise _binascii.Error("Non-base64 digit found")
     return VBytes._mk(out)
 
 
